@@ -8,6 +8,8 @@
 (*    ty = "coll"  -> FloatDataCollection([float(x) : x \in items])        *)
 (* Context channel: Keys -> value records [t, v, items, bt, d]             *)
 (*    t = "absent"  key not present                                        *)
+(*    t = "null"    key present with value None (a parameter then resolves *)
+(*                  to None: "name in context.keys()" decides presence)    *)
 (*    t = "n"       number float(v)                                        *)
 (*    t = "l"       list [float(x) : x \in items]                          *)
 (*    t = "s"       a string: the template "x={k}" applied d times to the  *)
@@ -22,6 +24,7 @@ Float(n)    == [ty |-> "float", v |-> n, items |-> <<>>]
 Coll(s)     == [ty |-> "coll",  v |-> 0, items |-> s]
 
 Absent      == [t |-> "absent", v |-> 0, items |-> <<>>, bt |-> "", d |-> 0]
+Null        == [t |-> "null", v |-> 0, items |-> <<>>, bt |-> "", d |-> 0]
 Num(n)      == [t |-> "n", v |-> n, items |-> <<>>, bt |-> "", d |-> 0]
 List(s)     == [t |-> "l", v |-> 0, items |-> s,    bt |-> "", d |-> 0]
 Str(val)    == IF val.t = "s"
